@@ -47,6 +47,7 @@ def body(ck, F, cfg):
 
     C16.constrain_rules(ck, F, "R02.2")
     C16.callbacks_rule(ck, F, "R02.2")
+    C16.multiply_constraint_rules(ck, F, "R02.2")
     A = AN.verifier_scalars(F)
     I = A["I"]
     ck.fn(AN.H.P_VER + "verification_scalars")
